@@ -4,6 +4,7 @@ import (
 	"fmt"
 	"go/constant"
 	"go/token"
+	"go/types"
 	"sort"
 	"strings"
 
@@ -218,4 +219,39 @@ func joinKeys(m map[string]bool) string {
 	}
 	sort.Strings(ks)
 	return strings.Join(ks, "|")
+}
+
+// checkTypedefTransparent (PRED-ROOT): a typedef is transparent — a field of
+// type `typedef list<string> Names` is a list field. Every predicate of package
+// gen that classifies a compile.TypeSpec (func(TypeSpec) bool) must therefore
+// give, for each root kind, the same answer for the type itself and for a
+// typedef of it (finite-domain evaluation per root kind with the subject being
+// the kind or a typedef of it). A predicate that forgets to resolve the root
+// treats aliased fields differently from plain ones.
+func checkTypedefTransparent(c *core.Ctx, l *core.Ledger, rule string) {
+	ka := newKindAnalysis(c)
+	n := 0
+	for _, f := range c.AllFuncs("gen") {
+		if c.IsTestFile(f.Pos()) || f.Parent() != nil || f.Signature.Recv() != nil || len(f.Params) != 1 {
+			continue
+		}
+		if !types.Identical(f.Params[0].Type(), ka.tsType) {
+			continue
+		}
+		tab := ka.predicateTable(f)
+		if tab == nil {
+			continue
+		}
+		n++
+		var amb []string
+		for rk, r := range tab {
+			if r[0] && r[1] {
+				amb = append(amb, strings.TrimSuffix(rk, "Spec"))
+			}
+		}
+		sort.Strings(amb)
+		l.Check(len(amb) == 0, rule, core.CanonName(f), c.Rel(f.Pos()), "answers the same for a type and for a typedef of it, for every root kind", "the predicate can answer differently for a type and for a typedef of it (root kinds: "+strings.Join(amb, ", ")+"): typedef'd fields are treated differently from plain ones")
+	}
+	l.Units["typespec_predicates"] = n
+	l.Floor(rule, 5)
 }
